@@ -36,9 +36,9 @@ Definition oom_float := Eval vm_compute in b "OUT-OF-MODEL: float literal outsid
 (* t.errorf: the position is taken from the current token, taking account of backups *)
 Definition p_errorf {A} (class : bstr) (st : pst) : presult A := PErr (err_tok st) class st.
 
-(* t.unexpected *)
+(* t.unexpected: reported at the token it is given (errorAt, /repo bb87cc7), not at err_tok *)
 Definition p_unexpected {A} (t : tok) (st : pst) : presult A :=
-  if t_typ t =? pk_itemError then p_errorf c_lexical st else p_errorf c_unexpected st.
+  if t_typ t =? pk_itemError then PErr t c_lexical st else PErr t c_unexpected st.
 
 (* t.expect *)
 Definition p_expect (typ : N) (st : pst) : presult tok :=
